@@ -124,6 +124,10 @@ def run_kani_unit(uname, ucfg, repo, scratch, here, tier, only=None):
                 hr["status"] = "undecided"; hr["message"] = f"vacuity guard: only {p.get('covers_sat')} of {p.get('covers')} cover properties satisfied"
             else:
                 hr["status"] = "ok"
+        elif p["verdict"] == "FAILED" and (re.search(r"bad_alloc|[Oo]ut of memory|memory exhausted|SIGKILL|signal 9|CBMC (crashed|timed out)", out) or not p["failed_list"]):
+            # the back end died (memory) or reported failure without naming a failed check: a tool limit, never an alarm
+            hr["status"] = "undecided"; hr["message"] = "CBMC did not complete (resource limit) - no failed check was named"
+            hr["output"] = out[-2000:]
         elif p["verdict"] == "FAILED":
             if p["unwinding_failure"] and all("unwinding" in x for x in p["failed_list"]):
                 hr["status"] = "undecided"; hr["message"] = "unwinding assertion failed (bound too small)"
